@@ -126,6 +126,8 @@ func newUniverse() *universe {
 	tT.methods = []mth{{name: "M", results: []*ty{tint}}, {name: "Pair", results: []*ty{tint, tstr}}} // promoted from S (value receiver)
 	add(&ty{s: "[]S", k: kSlice, elem: tS})
 	add(&ty{s: "struct{ x, y int }", k: kStruct, comparable: true, fields: []fld{{"x", tint}, {"y", tint}}})
+	tEmpty := add(&ty{s: "struct{}", k: kStruct, comparable: true})
+	add(&ty{s: "chan struct{}", k: kChan, elem: tEmpty, comparable: true})
 	tI := add(&ty{s: "I", k: kIface, named: true, comparable: true})
 	tI.methods = []mth{{name: "M", results: []*ty{tint}}}
 	add(&ty{s: "any", k: kIface, comparable: true})
@@ -307,7 +309,7 @@ func (g *progGen) pickTy(ts []*ty) *ty { return ts[g.n("ty", 0, len(ts)-1)] }
 
 // valueTypes returns types usable for local variables (everything).
 func (g *progGen) simpleType() *ty {
-	names := []string{"int", "int", "string", "bool", "float64", "N", "S", "[]int", "map[string]int", "*S", "uint8", "int64", "I", "any", "error", "uint", "float32", "Str", "[3]int", "chan int", "*int", "[]string", "func(int) int", "complex128", "F", "int8", "uint32", "T2", "Pair[string, int]", "List[float64]", "A", "[]S", "B", "*T2", "struct{ x, y int }", "[]byte", "int16", "int32", "uint16", "uint64", "uintptr", "map[N][]string", "<-chan string", "chan<- float64", "Fn", "func()"}
+	names := []string{"int", "int", "string", "bool", "float64", "N", "S", "[]int", "map[string]int", "*S", "uint8", "int64", "I", "any", "error", "uint", "float32", "Str", "[3]int", "chan int", "*int", "[]string", "func(int) int", "complex128", "F", "int8", "uint32", "T2", "Pair[string, int]", "List[float64]", "A", "[]S", "B", "*T2", "struct{ x, y int }", "[]byte", "int16", "int32", "uint16", "uint64", "uintptr", "map[N][]string", "<-chan string", "chan<- float64", "Fn", "func()", "chan struct{}", "struct{}"}
 	if g.o.NoGenerics {
 		names = names[:28]
 	}
